@@ -23,6 +23,8 @@ def run(ctx):
     if corpus:
         batches.append(corpus)
     n = 10000 if thorough else 320
+    # the named life cycles first (one acquisition, close while running, restart, two acquisitions, start while running / misuse, ...)
+    batches.append([h.case(tag=name) for name, h in S.base_histories("raw")])
     cases = [S.random_history(rng, "raw", max_cycles=4, max_appends=5).case(tag="random") for _ in range(n)]
     calls = S.model_calls(drv, cases)
     for k, c in enumerate(cases):
